@@ -78,7 +78,7 @@ example :
         { files := [([47, 109, 47, 110, 101, 119], [49], [83, 117, 98, 106, 101, 99, 116, 58, 32, 120, 10, 10, 98, 10])],
           error := false, reject := false, log := [] }) 0 []).2.map (·.1)) =
       [.openRd 3 [49], .read 7, .unlinkat 3 [49], .close 7] := by
-  simp only [processMessage, eval]
+  simp only [processMessage, evalP, evalTop, evalT, eval]
   decide +kernel
 
 /-- **Error isolation.**  In a walk, when `readdir` returns the name `n` (not `.` or `..`), the run is
@@ -225,14 +225,14 @@ example : ∀ q, ((runPlan Plan.none (mainP Proofs.StdinExample.env0 Proofs.Stdi
   C04_stdin_spool_removed _ _ _ _ _ _ _ _ rfl rfl Proofs.StdinExample.ex_stdinExprs Proofs.StdinExample.ex_stdinIs
     Proofs.StdinExample.ex_fresh (fun _ _ => rfl)
 
-/-- Exit status 0 means stored (= `C02_stdin_exit0`). -/
+/-- Exit status 0 means stored (= `C02_stdin_exit0`; for a rule tree that asks the operating system nothing). -/
 theorem C04_stdin_zero_means_stored (env : PEnv) (orc : EvalOracles) (conf : List ConfBlock) (files : Files) (input : Bytes)
     (expr : Expr) (w : World) (plan : Plan) (hm : env.stdinMode = true) (hs : env.syntaxOnly = false)
     (hc : Proofs.World.stdinExprs conf = [expr]) (hin : Proofs.World.StdinIs w input)
-    (hfresh : Proofs.World.SpoolFresh env w) :
+    (hfresh : Proofs.World.SpoolFresh env w) (hfree : Proofs.asksFree expr = true) :
     let r := runPlan plan (mainP env orc true conf files input) w 0 []
     r.1.1 = 0 → Proofs.Delivered env orc expr input r.2.1 :=
-  Proofs.stdin_exit0 env orc conf files input expr w plan hm hs hc hin hfresh
+  Proofs.stdin_exit0 env orc conf files input expr w plan hm hs hc hin hfresh hfree
 
 /-- In stdin mode the status is 75 iff an error occurred, else 1 iff a reject was executed, else 0 -
 as equivalences on the final loop state, for every configuration, input and fault plan. -/
